@@ -225,6 +225,16 @@ pub fn check_unquote(v: &Unquote<'_>, acc: &mut Acc) -> Result<(), Fail> {
         "c17-cow-vs-string",
         "value {raw:?}: to_cow() = {s3:?} but character-by-character unquoting gives {s1:?}"
     );
+    // the conversion a caller writes as Cow::from(value) / value.into()
+    let s4 = match catch(|| std::borrow::Cow::<str>::from(v.clone()).into_owned()) {
+        Ok(s) => s,
+        Err(msg) => fail!("c17-to-cow-panic", "Cow::from(value) panicked on value {raw:?}: {msg}"),
+    };
+    ensure!(
+        s4 == s1,
+        "c17-cow-vs-string",
+        "value {raw:?}: Cow::from(value) = {s4:?} but character-by-character unquoting gives {s1:?}"
+    );
     // totality also for a value whose iteration has begun: after k steps
     // neither form may panic (their relation is not fixed by the statement)
     let nchars = raw.chars().count();
